@@ -22,7 +22,7 @@ def variants(prop, case):
             return [{"via": RVIAS[h % len(RVIAS)]}] if TIER == "quick" else [{"via": "rows"}, {"via": RVIAS[h % len(RVIAS)]}]
         if ctor[0] == "flat":
             return [{"lkind": ["list", "array", "tuple"][h % 3]}]     # a RaggedShape object is not "row lengths": see DESIGN 6.3
-        return [{}]
+        return [{"layout": ["C", "F", "T", "strided"][h % 4]}]
     if op in ("getitem", "setitem"):
         sp = ["plain", "tuple", "empty"][h % 3]
         v = RVIAS[(h // 3) % len(RVIAS)]
@@ -47,18 +47,21 @@ def variants(prop, case):
     if op == "ragged_slice":
         return [{"via": "flat"}, {"via": RVIAS[h % len(RVIAS)], "how": ["fn", "nps"][(h // 16) % 2]}]
     if op.startswith("bit_"):
-        return [{"indt": ["u8", "u4", "u2", "u1", "i8", "i4"][h % 6], "npidx": bool(h & 8), "listkind": ["list", "array"][(h // 16) % 2], "again": bool(h & 64)}]
+        return [{"indt": ["u8", "u4", "u2", "u1", "i8", "i4"][h % 6], "npidx": bool(h & 8), "listkind": ["list", "array"][(h // 16) % 2], "again": bool(h & 64),
+                 "repack": bool(h & 128), "pre_w": [0, 1, 2, 3][(h // 256) % 4]}]
+    if op.startswith("dc_"):
+        return [{}, {"inherit": True}] if len(case[1][0] if op != "dc_concat" else case[1][0][0]) > 1 else [{}]
     if op == "rl_roundtrip":
         return [{"input": ["array", "list"][h % 2], "conv": ["asarray", "array"][(h // 2) % 2]}]
-    RLV = ["from_array", "concat2", "concat3", "pieces", "ufunc", "astype"]
+    RLV = ["from_array", "concat2", "concat3", "pieces", "ufunc", "astype", "derived", "derived2"]
     if op == "rl_getitem":
         return [{"npint": bool(h & 1), "listkind": ["list", "array"][(h // 2) % 2], "via": "from_array"},
-                {"npint": bool(h & 1), "listkind": ["list", "array"][(h // 2) % 2], "via": RLV[1 + (h // 4) % 5]}]
+                {"npint": bool(h & 1), "listkind": ["list", "array"][(h // 2) % 2], "via": RLV[1 + (h // 4) % 7], "maskvia": RLV[(h // 32) % 6]}]
     if op in ("rl_ufunc", "rl_reduce"):
         hw = ["ufunc", "operator"][h % 2] if op == "rl_ufunc" else ["np", "method"][h % 2]
-        return [{"how": hw, "via": "from_array"}, {"how": hw, "via": RLV[1 + (h // 4) % 5]}]
+        return [{"how": hw, "via": "from_array", "share": True}, {"how": hw, "via": RLV[1 + (h // 4) % 7]}]
     if op == "rl_concat":
-        return [{"via": "from_array"}, {"via": RLV[1 + (h // 4) % 5]}]
+        return [{"via": "from_array"}, {"via": RLV[1 + (h // 4) % 7]}]
     if op == "rl2_getitem":
         return [{"tuple1": bool(h & 1)}]
     if op == "rl2_func":
